@@ -49,6 +49,10 @@ def run(ctx: Ctx):
     from .common import subtotal_terms_once
 
     subtotal_terms_once(ctx, "subtotal-cells.terms-once")
+    # the counts a residual is formed from are those of the row / column ELEMENT: Element.index is its position in the data
+    from . import c01
+
+    c01.element_index_provenance(ctx)
 
 
 def formula(ctx: Ctx):
